@@ -50,6 +50,55 @@ let show_change = function
   | DropTable (t, fks) -> Printf.sprintf "D:%d:%s" (show_t t) (String.concat "," (Stdlib.List.map show_fk fks))
   | ModifyTable (t, cs) -> Printf.sprintf "M:%d:%s" (show_t t) (String.concat "," (Stdlib.List.map show_tc cs))
 
+(* ---- round 5: change sets with enum objects (stage objects, mode "obj") *)
+let parse_enum () = let e = next_int () in { e_name = nat_of_int (e / 2); e_id = nat_of_int e }
+let parse_xtc () =
+  match next () with
+  | "+" -> XT (AddFK (parse_fk ()))
+  | "-" -> XT (DropFK (parse_fk ()))
+  | "~" -> let a = parse_fk () in let b = parse_fk () in XT (ModifyFK (a, b))
+  | "o" -> XT (Other (next_nat ()))
+  | "c" ->
+    let k = next_int () in
+    let e = parse_enum () in
+    (match k with
+     | 0 -> XAddCol e
+     | 1 -> XModCol (None, Some e)
+     | 3 -> XModCol (Some e, None)
+     | _ -> XDropCol e)
+  | s -> failwith ("xtchange " ^ s)
+let parse_xchange () =
+  match next () with
+  | "P" -> XAddObject (parse_enum ())
+  | "Q" -> XDropObject (parse_enum ())
+  | k ->
+    let t = parse_table () in
+    let ne = next_int () in
+    let tys = times ne parse_enum in
+    let n = next_int () in
+    (match k with
+     | "A" -> XAddTable (t, times n parse_fk, tys)
+     | "D" -> XDropTable (t, times n parse_fk, tys)
+     | "M" -> XModifyTable (t, times n parse_xtc)
+     | s -> failwith ("xchange " ^ s))
+let show_e e = string_of_int (int_of_nat e.e_id)
+let show_xtc = function
+  | XT c -> show_tc c
+  | XAddCol e -> "c0." ^ show_e e
+  | XModCol (None, Some e) -> "c1." ^ show_e e
+  | XModCol (Some e, None) -> "c3." ^ show_e e
+  | XModCol (_, _) -> "c?"
+  | XDropCol e -> "c2." ^ show_e e
+let show_xchange = function
+  | XAddTable (t, fks, tys) ->
+    Printf.sprintf "A:%d:%s:%s" (show_t t) (String.concat "," (Stdlib.List.map show_fk fks)) (String.concat "," (Stdlib.List.map show_e tys))
+  | XDropTable (t, fks, tys) ->
+    Printf.sprintf "D:%d:%s:%s" (show_t t) (String.concat "," (Stdlib.List.map show_fk fks)) (String.concat "," (Stdlib.List.map show_e tys))
+  | XModifyTable (t, cs) -> Printf.sprintf "M:%d:%s" (show_t t) (String.concat "," (Stdlib.List.map show_xtc cs))
+  | XAddObject e -> "P:" ^ show_e e
+  | XDropObject e -> "Q:" ^ show_e e
+let show_xout l = "[" ^ String.concat " " (Stdlib.List.map show_xchange l) ^ "]"
+
 let show_out l = "[" ^ String.concat " " (Stdlib.List.map show_change l) ^ "]"
 (* more than 12 changes: Go's sort.Slice is no longer the stable insertion sort of the executable model; the
    harness then compares the multiset of planned changes (and the replay verdict) *)
@@ -82,9 +131,37 @@ let () =
           | DropSchema s -> "T" ^ string_of_int (int_of_nat s)
           | ModifySchema s -> "U" ^ string_of_int (int_of_nat s) in
         let nc = next_int () in
+        if _mode = "obj" then begin
+          let xs = times nc parse_xchange in
+          (match next () with "T" -> () | s -> failwith ("types marker " ^ s));
+          let nty = next_int () in
+          let tys = times nty next_nat in
+          let nu = next_int () in
+          let uses = times nu (fun () -> let q = parse_q () in let k = next_nat () in (q, k)) in
+          let tv l = match treplay l (tys, uses) with Some _ -> "ok" | None -> "fail" in
+          let rv l = match replay (erase_all l) c0 with Some _ -> "ok" | None -> "fail" in
+          (match xplan xs with
+           | XPOut -> Stdlib.List.iter (fun k -> Printf.printf "%s %s out=outoffuel\n" id k) ["sort"; "pg"]
+           | XPOk l ->
+             Printf.printf "%s sort out=%s replay=%s types=%s\n" id (show_xout l) (rv l) (tv l);
+             let p = Stdlib.List.concat_map xpg_sources l in
+             Printf.printf "%s pg out=%s replay=%s types=%s\n" id (show_xout p) (rv p) (tv p))
+        end else
         let cs = times nc parse_change in
         big := nc > 12;
         let verdict l = match replay l c0 with Some _ -> "ok" | None -> "fail" in
+        if _mode = "sqlite" then begin
+          (* stage sqlite: the statements follow the change list; bracket iff a table is dropped or rebuilt *)
+          let (off, l) = sqlite_plan cs in
+          let v = match sreplay off l c0 with Some _ -> "ok" | None -> "fail" in
+          Printf.printf "%s sqlite out=%s fk=%s replay=%s\n" id (show_out l) (if off then "off" else "on") v
+        end else
+        if _mode = "tidb" then
+          (* stage tidb: tidb.go PlanChanges = DetachCycles, flat, stable sort by priority, the MySQL planner on each atomic change *)
+          (match tidb_plan cs with
+           | TOut -> Printf.printf "%s tidb out=outoffuel\n" id
+           | TOk l -> Printf.printf "%s tidb out=%s replay=%s\n" id (show_obs l) (verdict l))
+        else
         if _mode = "raw" then
           (match sortChanges cs with
            | None -> Printf.printf "%s raw out=outoffuel\n" id
